@@ -53,6 +53,8 @@ def run(ctx, rep):
     r26(ctx, rep)
     common.check_closure_capture(ctx, rep, "R2.7")
     r28(ctx, rep)
+    from . import c10
+    c10.run(ctx, rep, r1="R2.9", only_transform=True)
 
 
 # ---------------------------------------------------------------------------
